@@ -388,11 +388,23 @@ def rule_r7_union_extent(ctx: Ctx) -> None:
     ctx.check(not nonide, init.short, "rejection class", "rejections must be InvalidDefinitionError subclasses", init.where(), nonide)
     from ..regions import trivial_property_expr
 
-    e = trivial_property_expr(repo, u, "number_of_variants")
-    ctx.check(e is not None and norm(e) == "len(self.fields)", u.short + ".number_of_variants", norm(e) if e is not None else "?", "variants are the fields", u.module.relpath)
+    # which attributes count as fields / variants: evaluated over an abstract attribute list (fields, a padding field, constants)
+    from ..absint import make_obj
+    from ..codec import isa_of
+    from ..fold import Sym, Unfoldable as _Unf
+
     comp = ctx.cls(SER + "_composite.CompositeType")
-    e = trivial_property_expr(repo, comp, "fields")
-    ctx.check(e is not None and norm(e) == "[a for a in self.attributes if isinstance(a, Field)]", comp.short + ".fields", norm(e) if e is not None else "?", "fields are exactly the attributes that are Field instances, in order", comp.module.relpath)
+    F, P, Cn = (isa_of(ctx, SER + "_attribute." + n) for n in ("Field", "PaddingField", "Constant"))
+    attrs = [Sym(_isa_=F, name="a"), Sym(_isa_=Cn, name="K"), Sym(_isa_=P, name=""), Sym(_isa_=F, name="b"), Sym(_isa_=Cn, name="L")]
+    for cls_, prop, want_names in ((comp, "fields", ["a", "", "b"]), (comp, "fields_except_padding", ["a", "b"]), (comp, "constants", ["K", "L"]), (u, "number_of_variants", 3)):
+        me = make_obj(ctx, cls_, attributes=list(attrs))
+        try:
+            got = Folder({"self": me}, repo, cls_.module, cls_).fold(ast.parse("self." + prop, mode="eval").body)
+        except _Unf as ex:
+            raise AnalysisError("%s.%s: cannot evaluate over an abstract attribute list: %s" % (cls_.name, prop, ex))
+        ctx.count()
+        shown = [getattr(x, "name", "?") for x in got] if isinstance(got, list) else got
+        ctx.check(shown == want_names and (not isinstance(got, list) or all(any(x is a for a in attrs) for x in got)), cls_.short + "." + prop, str(shown), "fields are exactly the attributes that are Field instances, in order (padding included); variants are the fields", cls_.module.relpath)
 
     d = ctx.cls(SER + "_composite.DelimitedType")
     dinit = d.methods.get("__init__")
